@@ -111,3 +111,12 @@ CASES += [
     m("read of the unresolved total hands out the stored array", "C19-G",
       "                    ret = storage[_total].copy()", "                    ret = storage[_total]"),
 ]
+
+CASES += [
+    m("trim_to saves the type half of the flag only (the repaired defect)", "C19-K",
+      "            if self.current_tag is None:\n                dtype_saved = self.current_dtype\n            else:\n                dtype_saved = [self.current_dtype, self.current_tag]\n",
+      "            dtype_saved = self.current_dtype\n"),
+    m("_add_data saves the type half of the flag only (seeded change of round 6)", "C19-K",
+      "        if self.current_tag is None:\n            flag_saved = self.current_dtype\n        else:\n            flag_saved = [self.current_dtype, self.current_tag]\n",
+      "        flag_saved = self.current_dtype\n", 2),
+]
